@@ -41,13 +41,16 @@ Do(s0) ==
                    /\ q' = q2 /\ wait' = w2
                    /\ Out(s, 0, RetSeq({[t |-> s.t, r |-> <<>>]} \cup {[t |-> x, r |-> <<>>] : x \in SizeWoken(q2, wait)}), q2, w2)
               ELSE \E p \in P :   \* (P # {} implies q = <<>>): p pops the new element at once; the size goes 0 -> 1 -> 0
-                   LET w1 == [wait EXCEPT ![p] = None]
+                   \* all pop waiters are woken (Broadcast): p wins the element, the others find the queue empty again and
+                   \* re-evaluate their wait condition: they keep waiting if it still holds, otherwise they return (no element)
+                   LET Losers == IF flag THEN {} ELSE P \ {p}
+                       w1 == [t \in Threads |-> IF t = p \/ t \in Losers THEN None ELSE wait[t]]
                        \* "above" waiters with threshold 0 may or may not observe size 1 before p removes it: both allowed
                        A == {t \in Threads : w1[t].kind = "above" /\ w1[t].th = 0} IN
                    \E Seen \in SUBSET A :
                      LET w2 == [t \in Threads |-> IF t \in Seen THEN None ELSE w1[t]] IN
                      /\ q' = q /\ wait' = w2
-                     /\ Out(s, 0, RetSeq({[t |-> s.t, r |-> <<>>], [t |-> p, r |-> <<s.v>>]} \cup {[t |-> x, r |-> <<>>] : x \in Seen}), q, w2)
+                     /\ Out(s, 0, RetSeq({[t |-> s.t, r |-> <<>>], [t |-> p, r |-> <<s.v>>]} \cup {[t |-> x, r |-> <<>>] : x \in Seen \cup Losers}), q, w2)
     [] s.op = "Pop" ->
          /\ UNCHANGED <<cfg, flag>> /\ s.t \notin Busy
          /\ IF q = <<>>
